@@ -10,8 +10,8 @@ PROP = dict(
     mismatch_is_violation=True,
     rule="5 directed histories on the keys MIN, MIN+1, -1, 0, MAX (the D9 replay: every operation incl. lookups/removes on the empty table) and "
          "420 (quick) / 2100 (thorough) random histories of up to 60 / 400 operations (insert, m[k]=v, m[k] += / -= / *= v through the map's Index impl (directly and inside a helper function), try_get, get, m[k], contains, remove, len; "
-         "grow / churn / drain phases; key pools of 4, 12, 40, 160 keys so that histories range from dense update/remove traffic to 7 resizes "
-         "and hundreds of slot reuses) over 7 key domains: extreme ints (MIN, MIN+1, -1, 0, 1, MAX, +-2^62 ...), ints congruent mod 64 (two residue "
+         "grow / churn / drain phases; key pools of 4, 12, 40 keys in the quick tier (up to 4 resizes per history) and additionally 160 keys in the thorough tier (up to 7 resizes, "
+         "hundreds of slot reuses), so that histories range from dense update/remove traffic to repeated growth) over 7 key domains: extreme ints (MIN, MIN+1, -1, 0, 1, MAX, +-2^62 ...), ints congruent mod 64 (two residue "
          "classes), multiples of 1024 of both signs (collide at every table size reached), a user key type with constant hash 7, strings "
          "(FNV-1a), (int, int) tuples (hash_combine), small ints; every fifth history uses core/set; after every operation the program prints the "
          "result and len(); the transcript (incl. the panic of get on an absent key) is compared with the Lean hash-table model and with Rust's HashMap; "
@@ -28,12 +28,12 @@ PROP = dict(
     ],
     assumptions=["the key type's Equal is an equivalence relation and equal keys hash equally (structure Lawful); Hash/Equal are pure functions"],
     design_ref="DESIGN.md §6 C27",
-    level_text="Full refinement theorem, no restriction: for every history of map operations from map.new(), the model of the chained hash table "
+    level_text="Refinement theorem over all histories, incl. remove, resize and slot reuse (no _partial restriction), under the hypothesis Lawful hash eq: for every history of map operations from map.new(), the model of the chained hash table "
                "(buckets, struct-of-arrays entries, free list through entry_nexts, resize on slot count) prints what an association-list dictionary prints "
-               "— results, len() and the panic of get on an absent key — for any lawful Hash/Equal pair (colliding and constant hashes included); "
+               "— results, len() and the panic of get on an absent key — for any Hash/Equal pair satisfying the hypothesis `Lawful` (Equal an equivalence, equal keys hash equally; this admits colliding and constant hashes). `Lawful` is discharged in Lean only for propositional equality on Int with an arbitrary hash function (lawful_of_eq); for the key types of the harness it is an assumption; "
                "proved through a representation invariant preserved by insert (update / free-list slot / new slot), resize and remove; no bound check "
                "fails and no chain walk runs out of fuel; the bucket index is in range for every hash incl. MIN. set is the V = Unit instance. "
                "The model is tied to /repo on every run by running histories on the real core/map and core/set on the real VM.",
-    level_note="Not partial: remove, resize and slot reuse are inside the theorem. The step from map.abra to the model is by correspondence.",
+    level_note="Not partial: remove, resize and slot reuse are inside the theorem; `Lawful hash eq` is a hypothesis of every theorem. The step from map.abra to the model is by correspondence.",
     technique="Lean 4 refinement proof (representation invariant with explicit chain witnesses, simulation against an association list) + differential correspondence against the real core/map on the real VM + Rust HashMap reference",
 )
